@@ -4,7 +4,7 @@
   Property clauses and the theorems that carry them
     "never on which calls were made earlier, on cache hits, misses or evictions"
         lru_correct, lru_correct_upto, run_eq_pure_of_invalidate, evict_irrelevant, lru_capacity,
-        sys_pure_caches_correct, sys_capacity, dtype_create_value_pure
+        sys_pure_caches_correct, sys_capacity, head_dtype_caches_typed, dtype_create_exact_typed, dtype_create_value_pure
     "on option values that were in force earlier"
         head_setters_invalidate (generated obligation: in the working tree assigning lsb0 / mxfp_overflow leaves no
         stale string behind), cached_eq_pure, run_eq_pure_of_invalidate, str_to_bitstore_pure_when_invalidating,
@@ -308,23 +308,38 @@ theorem sys_set_back_restores (o : Opts) (ops : List SysOp) (n : OptName) (v : B
   simp only [sysOptsAfter, List.foldl_append, List.foldl_cons, List.foldl_nil]
   exact set_back_restores _ n v
 
-/-! ### `Dtype._create`: keys compared with `==` -/
+/-! ### `Dtype._create` / `Dtype._new_from_token`: typed keys (e6496ea) -/
 
-/-- After any history, `Dtype._create(definition, length, scale)` returns a Dtype equal BY VALUE to the one a cold
-    call would build (same name, same length, numerically equal scale), and raises exactly when a cold call raises —
-    although `2`, `2.0` and `True`-like scales share one cache entry. -/
-theorem dtype_create_value_pure (cap : Nat) (ops : List (Op DtypeArg)) (a : DtypeArg) :
-    match (step (dtypeCfg cap) (run (dtypeCfg cap) St.init ops).1 (.call a)).2 with
+/-- Generated obligation: both Dtype caches of the working tree are `typed=True`. -/
+theorem head_dtype_caches_typed : Gen.dtypeCachesTyped = true := by
+  decide
+
+/-- With typed keys (the working tree): after ANY history `Dtype._create(definition, length, scale)` returns EXACTLY
+    the Dtype a cold call builds — the scale object asked for, int or float or bool — and raises exactly when a cold
+    call raises. -/
+theorem dtype_create_exact_typed (cap : Nat) (ops : List (Op DtypeArg)) (a : DtypeArg) :
+    (step (dtypeCfg cap true) (run (dtypeCfg cap true) St.init ops).1 (.call a)).2
+      = some (dtypeCreate Opts.init a) :=
+  dtype_exact_typed cap ops a
+
+/-- Typed or not: the Dtype served equals the cold one BY VALUE (same name, same length, numerically equal scale),
+    and the call raises exactly when a cold call raises. -/
+theorem dtype_create_value_pure (cap : Nat) (typed : Bool) (ops : List (Op DtypeArg)) (a : DtypeArg) :
+    match (step (dtypeCfg cap typed) (run (dtypeCfg cap typed) St.init ops).1 (.call a)).2 with
     | some (.ok d) => dtypeCreate Opts.init a = .ok a ∧ d.valueEq a
     | some (.error e) => dtypeCreate Opts.init a = .error e
     | none => False :=
-  dtype_value_pure cap ops a
+  dtype_value_pure cap typed ops a
 
-/-- … and only by value: the scale OBJECT is the first caller's (int 2 served for float 2.0). -/
+/-- Why the caches must be typed (the tree before e6496ea): with `==` keys the scale OBJECT is the first caller's
+    (int 2 served for float 2.0), in either order; with typed keys each call gets its own. -/
 theorem dtype_create_first_caller_wins :
     let i2 : DtypeArg := ⟨"uint", some 8, some ⟨2, 1, .int⟩⟩
     let f2 : DtypeArg := ⟨"uint", some 8, some ⟨2, 1, .float⟩⟩
-    (run (dtypeCfg 256) St.init [.call i2, .call f2]).2 = [some (.ok i2), some (.ok i2)] ∧ i2 ≠ f2 ∧ i2.valueEq f2 := by
+    (run (dtypeCfg 256 false) St.init [.call i2, .call f2]).2 = [some (.ok i2), some (.ok i2)] ∧
+    (run (dtypeCfg 256 false) St.init [.call f2, .call i2]).2 = [some (.ok f2), some (.ok f2)] ∧
+    (run (dtypeCfg 256 true) St.init [.call i2, .call f2, .call i2]).2 = [some (.ok i2), some (.ok f2), some (.ok i2)] ∧
+    i2 ≠ f2 ∧ i2.valueEq f2 := by
   decide
 
 /-! ### non-vacuity: the hypotheses are satisfiable by non-trivial values -/
